@@ -2,6 +2,7 @@ package chainlib
 
 import (
 	"context"
+	"crypto/sha1"
 	"encoding/binary"
 	"encoding/json"
 	"fmt"
@@ -298,8 +299,8 @@ func (r *Runner) Apply(k int, op OpSpec) {
 		if strings.HasPrefix(model, "panic") {
 			model = "panic"
 		}
-		r.C.Violate(fmt.Sprintf("chain-op-panics/%s/%v", op.Kind, pv), "a chain operation panics on a history of well-formed blocks",
-			map[string]interface{}{"scenario": r.Sc, "failing_op": k, "panic": fmt.Sprint(pv)})
+		sig, what := r.classifyPanic(s, k, op, fmt.Sprint(pv))
+		r.C.Violate(sig, what, map[string]interface{}{"scenario": r.Sc, "failing_op": k, "panic": fmt.Sprint(pv)})
 		s.Dead = true
 	}
 	cas := fmt.Sprintf("scenario %s, session %s, %s %v n=%d", r.Sc.Name, s.Name, what, op.Nodes, op.N)
@@ -379,6 +380,51 @@ func (r *Runner) Apply(k int, op OpSpec) {
 	} else {
 		r.oracleC03(s, k, op)
 	}
+}
+
+// classifyPanic recognises the two known panics by the exact shape of the
+// history that causes them (checked on the database and on the harness' own
+// bookkeeping, not on the panic text alone); every other panic gets a
+// signature that embeds a hash of the concrete scenario, so a new nil
+// dereference can never hide behind a known one.
+func (r *Runner) classifyPanic(s *Session, k int, op OpSpec, msg string) (string, string) {
+	t, db := r.T, s.DB
+	nilDeref := strings.Contains(msg, "nil pointer dereference")
+	hasHdr := func(n int) bool { return len(core.GetHeaderRLP(db, t.Blocks[n].Hash(), t.Num[n])) > 0 }
+	hasBody := func(n int) bool { return len(core.GetBodyRLP(db, t.Blocks[n].Hash(), t.Num[n])) > 0 }
+	hasTd := func(n int) bool { return core.GetTd(db, t.Blocks[n].Hash(), t.Num[n]) != nil }
+	if nilDeref && op.Kind == "headers" && len(s.Rewound) > 0 {
+		// HeaderChain.WriteHeader: an imported header whose parent still has its TD (a side
+		// header that survived the rewind) but one of whose ancestors was removed by SetHead:
+		// the canonical-number rewrite loop walks into the removed header
+		for _, n := range op.Nodes {
+			p := t.Spec[n].Parent
+			if n == 0 || hasHdr(n) && n != op.Nodes[len(op.Nodes)-1] || !hasTd(p) {
+				continue
+			}
+			for a := p; a != 0; a = t.Spec[a].Parent {
+				if s.Rewound[a] && !hasHdr(a) {
+					return "headers-panic-side-header-after-sethead",
+						"HeaderChain.WriteHeader dereferences a nil headHeader when an imported header extends a side header (TD still stored) whose ancestor was removed by SetHead"
+				}
+			}
+		}
+	}
+	if nilDeref && op.Kind == "insert" && len(s.Rewound) > 0 && len(op.Nodes) > 0 {
+		// insertChain2, i == 0: the first block is known (header, body, state on disk, above the
+		// rewound head) and its parent block was removed by SetHead: parent.Root() on nil
+		n := op.Nodes[0]
+		p := t.Spec[n].Parent
+		if n != 0 && hasHdr(n) && hasBody(n) && s.Rewound[p] && (!hasHdr(p) || !hasBody(p)) && t.Num[n] > s.BC.CurrentBlock().NumberU64() {
+			return "insert-panic-known-side-block-parent-removed-by-sethead",
+				"InsertChain re-imports a known side block whose parent block was removed by SetHead and calls parent.Root() on the nil result of GetBlock"
+		}
+	}
+	raw, _ := json.Marshal(map[string]interface{}{"sc": r.Sc, "k": k})
+	if len(msg) > 80 {
+		msg = msg[:80]
+	}
+	return fmt.Sprintf("chain-op-panics/%s/%x/%s", op.Kind, sha1.Sum(raw), msg), "a chain operation panics on a history of well-formed blocks"
 }
 
 func (r *Runner) replay(k int, extra map[string]interface{}) map[string]interface{} {
